@@ -24,6 +24,7 @@ type propCfg struct {
 	Bounds      map[string][]string
 	Outside     []string
 	Assumptions []string
+	Opaque      map[string]string // functions returning a placeholder string on symbolic arguments (message formatting)
 }
 
 var props = map[string]*propCfg{}
